@@ -106,13 +106,22 @@ func (h *harness) casCases(sc *scenario, thorough bool) []string {
 		ne := 1 + r.Intn(4)
 		var es []casEntry
 		simOutcome := "ok" // what the property text + Go semantics demand
-		applied := 0
+		applied, revisits := 0, 0
 		for j := 0; j < ne; j++ {
 			e := casEntry{Space: known[r.Pick(len(known))], Key: keys[r.Pick(len(keys))]}
-			if r.Chance(6) {
+			// a later entry often addresses a key an earlier entry of the SAME message already wrote: then the
+			// compare must be against the value that earlier entry left, not against the pre-message value
+			revisit := j > 0 && r.Chance(40)
+			if revisit {
+				revisits++
+				prev := es[r.Pick(len(es))]
+				e.Space, e.Key = prev.Space, strings.ToLower(prev.Key)
+			}
+			if r.Chance(6) && !revisit {
 				e.Space = "nospace"
 			}
 			switch {
+			case revisit:
 			case r.Chance(3):
 				e.Key = ""
 			case r.Chance(3):
@@ -123,7 +132,13 @@ func (h *harness) casCases(sc *scenario, thorough bool) []string {
 				e.Key = strings.ToUpper(e.Key)
 			}
 			kcanon := strings.ToLower(e.Key)
-			if v, ok := sim[sk{e.Space, kcanon}]; ok && r.Chance(65) {
+			if pre, had := cur[sk{e.Space, kcanon}]; revisit && r.Chance(45) {
+				// stale: the value the key had BEFORE the message (absent = empty)
+				e.OldValue = ""
+				if had {
+					e.OldValue = hex.EncodeToString(pre)
+				}
+			} else if v, ok := sim[sk{e.Space, kcanon}]; ok && r.Chance(65) {
 				e.OldValue = hex.EncodeToString(v)
 			} else if ok && r.Chance(40) {
 				e.OldValue = "" // empty old value against a present key: must NOT match (unless the value is empty)
@@ -208,6 +223,9 @@ func (h *harness) casCases(sc *scenario, thorough bool) []string {
 			problem = fmt.Sprintf("outcome %s, compare-and-set semantics give %s", outcome, simOutcome)
 		}
 		rep.Case(fmt.Sprintf("cas|%v", es), applied > 0 && ne > 1)
+		if revisits > 0 {
+			rep.Count("cas-same-key-twice")
+		}
 		rep.Count("cas-outcome:" + outcome)
 		rep.Count(fmt.Sprintf("cas-applied=%d", applied))
 		if problem != "" {
